@@ -71,6 +71,9 @@ def applyOp (a : EArgs) (o : Opt) : Option EArgs :=
       let base := if v 0 = 0 then 38 else 48 + 5 * (v 0 - 1)
       some (((((a.setNum base (v 1)).setNum (base + 1) (v 2)).setNum (base + 2) (v 3)).setNum (base + 3) (v 4)).setNum (base + 4) (v 5))
     else none
+  -- assignment of the crate-managed public header field `checksum`: `finalize` zeroes the field
+  -- before summing, so the value written never reaches the image
+  | "stalecks" => some a
   | _ => none
 end Fadt
 
